@@ -24,3 +24,26 @@ pub fn unhex(s: &str) -> Option<Vec<u8>> {
     }
     Some(out)
 }
+
+/// scratch directory for a database: tmpfs when available (commits fsync on every transaction; on a
+/// loaded disk that dominates the run time and says nothing about the properties checked here)
+pub fn scratch_dir() -> tempfile::TempDir {
+    let shm = std::path::Path::new("/dev/shm");
+    if shm.is_dir() {
+        if let Ok(d) = tempfile::Builder::new().prefix("nvh").tempdir_in(shm) {
+            return d;
+        }
+    }
+    tempfile::tempdir().expect("tempdir")
+}
+
+/// temp dir on tmpfs when there is one (the engine fsyncs several times per node)
+pub fn fast_tempdir() -> tempfile::TempDir {
+    let shm = std::path::Path::new("/dev/shm");
+    if shm.is_dir() {
+        if let Ok(d) = tempfile::tempdir_in(shm) {
+            return d;
+        }
+    }
+    tempfile::tempdir().expect("tempdir")
+}
